@@ -53,6 +53,20 @@ static void emit_syn (const unsigned char *s, int len)
   fputs ("syn ", stdout); put_hex (s, len);
   printf (" %d%d%d%d%d%d%d\n", !!m, !!i, !!e, !!b, !!n, !!p, !!u);
   n_lines++;
+  if (len >= 8 && len <= 600)
+    {
+      /* the verdict may not depend on where in memory (or in its DBusString) the text lies: the same bytes at every offset 1..7 */
+      static unsigned char shifted[8 + 600];
+      int k;
+      for (k = 1; k < 8; k++)
+        {
+          DBusString s2; int u2;
+          memset (shifted, 'Z', k); memcpy (shifted + k, s, len);
+          _dbus_string_init_const_len (&s2, (const char *) shifted, k + len);
+          u2 = _dbus_string_validate_utf8 (&s2, k, len);
+          if (!!u2 != !!u) inconsistent ("utf8-at-offset", s, len, u, u2);
+        }
+    }
   if (memchr (s, 0, len) == NULL)
     {
       /* s is NUL-terminated by the callers (buffer has a trailing 0) */
@@ -196,6 +210,35 @@ static void utf8_points (void)
       }
 }
 
+/* one odd byte at every position of otherwise plain texts of every length up to 48 (and a few longer ones): a validator that
+ * looks at several bytes at a time must still see each of them */
+static void utf8_positions (void)
+{
+  static const unsigned char odd[] = { 0x00, 0x80, 0xff, 0xc3, 0xed };
+  static const int lens[] = { 63, 64, 65, 127, 128, 129, 255, 256, 257 };
+  static unsigned char buf[8 + 300];
+  int len, p, o, pre;
+  unsigned li;
+  for (len = 1; len <= 48 + (int) (sizeof lens / sizeof lens[0]); len++)
+    {
+      int n = len <= 48 ? len : lens[len - 49];
+      int step = n <= 48 ? 1 : 7;
+      for (pre = 0; pre < 3; pre++)                 /* nothing, or a two-byte / three-byte character in front (shifts everything) */
+        for (p = 0; p < n; p += step)
+          for (o = 0; o < (int) sizeof odd; o++)
+            {
+              int off = 0;
+              if (pre == 1) { buf[0] = 0xc3; buf[1] = 0xa9; off = 2; }
+              if (pre == 2) { buf[0] = 0xe2; buf[1] = 0x82; buf[2] = 0xac; off = 3; }
+              memset (buf + off, 'a' + (n % 20), n);
+              buf[off + p] = odd[o];
+              buf[off + n] = 0;
+              emit_syn (buf, off + n);
+            }
+    }
+  (void) li;
+}
+
 /* random strings with lengths around the 255 limit, from grammar-specific templates */
 static void random_limits (int count)
 {
@@ -328,7 +371,7 @@ main (int argc, char **argv)
   else if (!strcmp (mode, "sigext") && argc > 2)
     enumerate ((const unsigned char *) "a(){}sivyxZ", 11, atoi (argv[2]), 1);
   else if (!strcmp (mode, "utf8"))
-    { utf8_classes (); utf8_points (); }
+    { utf8_classes (); utf8_points (); utf8_positions (); }
   else if (!strcmp (mode, "deep"))
     deep ();
   else if (!strcmp (mode, "random") && argc > 3)
